@@ -315,4 +315,33 @@ theorem evalReads_eq (b : Bucket) (rv : List (Nat × Nat)) : evalReads b rv = Sp
   intro p _
   simp [readv_eq]
 
+/-! ### removing a share from the bucket (`unlink`) -/
+
+theorem lookup_erase_self (b : Bucket) (n : Nat) : lookup (erase b n) n = none := by
+  unfold lookup erase
+  induction b with
+  | nil => rfl
+  | cons p rest ih =>
+    by_cases h : p.1 = n
+    · simp only [List.filter_cons, h, bne_self_eq_false, Bool.false_eq_true, if_false]; exact ih
+    · have h' : (p.1 != n) = true := by simpa using h
+      have h'' : ¬ (p.1 == n) = true := by simpa using h
+      simp only [List.filter_cons, h', if_true, List.find?_cons, h'']; exact ih
+
+theorem lookup_erase_ne (b : Bucket) (n m : Nat) (hne : m ≠ n) : lookup (erase b n) m = lookup b m := by
+  unfold lookup erase
+  induction b with
+  | nil => rfl
+  | cons p rest ih =>
+    by_cases h : p.1 = n
+    · subst h
+      have hm : (p.1 == m) = false := by simpa using fun e : p.1 = m => hne e.symm
+      simp only [List.filter_cons, bne_self_eq_false, Bool.false_eq_true, if_false, List.find?_cons, hm]
+      exact ih
+    · have h' : (p.1 != n) = true := by simpa using h
+      simp only [List.filter_cons, h', if_true, List.find?_cons]
+      by_cases hm : (p.1 == m) = true
+      · simp [hm]
+      · simp only [hm]; exact ih
+
 end Tahoe.Storage.Slot
